@@ -217,6 +217,12 @@ def impl_extract(types, every, root_dir, out_dir, lctx):
             b = "Enot-relative"
         inc[tstr(tkey(t))] = [a, b]
     res["inc"] = inc
+    from nunavut.jinja import SupportGenerator
+    res["support_folders"] = sorted(parts_of(n.get_support_output_folder()) for n, _ in nss)
+    try:
+        res["support_files"] = sorted((parts_of(p) for p in SupportGenerator(root).generate_all(is_dryrun=True)), key=repr)
+    except ValueError:
+        res["support_files"] = "Ebad-suffix"
     return res, (root, gen)
 
 
@@ -231,14 +237,23 @@ def key_enc(k):
     return "/".join(enc(c) for c in k)
 
 
-def request(enable, ext, stem, out_dir, order, table, types, refs):
+def support_inputs(language):
+    """(parts of support_namespace, file names of the support resources) through the public language API."""
+    from nunavut._utilities import ResourceType
+    names = [p.name for p in language.get_support_files(ResourceType.SERIALIZATION_SUPPORT)] + \
+            [p.name for p in language.get_support_files(ResourceType.TYPE_SUPPORT)]
+    return list(language.support_namespace), names
+
+
+def request(enable, ext, stem, out_dir, order, table, types, refs, subs=(), names=()):
     tab = ",".join(f"{enc(a)}>{enc(b)}" for a, b in sorted(table.items())) or "!"
     if isinstance(order, str):
         o = order
     else:
         o = ",".join(key_enc(k) for k in order) or "!"
     return " ".join(["tree", "1" if enable else "0", enc(ext), enc(stem), enc(out_dir), o, tab,
-                     ",".join(ty_enc(t) for t in types) or "!", ",".join(ty_enc(t) for t in refs) or "!"])
+                     ",".join(ty_enc(t) for t in types) or "!", ",".join(ty_enc(t) for t in refs) or "!",
+                     ",".join(enc(x) for x in subs) or "!", ",".join(enc(x) for x in names) or "!"])
 
 
 def _key(s):
@@ -271,7 +286,7 @@ def parse_answer(ans, every):
     from the root through `nested`, as on the real side)."""
     if not ans.startswith("ok "):
         return {"error": ans}
-    _, root, nodes_s, nss_s, dts_s, all_s, find_s, inc_s = ans.split(" ")
+    _, root, nodes_s, nss_s, dts_s, all_s, find_s, inc_s, sup_s = ans.split(" ")
     res = {"root": _key(root)}
     store = {}
     for rec in _lst(nodes_s, ";"):
@@ -313,6 +328,9 @@ def parse_answer(ans, every):
         a, b = e.split("@")
         inc[tstr(t)] = [_posix(a), _posix(b)]
     res["inc"] = inc
+    folders, targets = sup_s.split("|")
+    res["support_folders"] = sorted(_parts(x) for x in folders.split(";"))   # one per yielded namespace, "~" = the path "."
+    res["support_files"] = sorted((_parts(x) for x in _lst(targets, ";")), key=repr)
     return res
 
 
@@ -460,6 +478,25 @@ def search(ctx, case, types, every, root_dir, clean_out, lctx, built, own_paths)
                 if f'"{inc}"' not in lst and f"<{inc}>" not in lst:
                     ctx.fail({"kind": "include-list"}, "filter_includes does not list the dependency under its output path",
                              rep(type=tstr(tkey(t)), dependency=tstr(dk), include=inc, includes=lst))
+    # -- support files: every namespace names the output directory itself as support folder; support files inside it
+    want_folder = pathlib.PurePosixPath(base)
+    for n, _ in nss:
+        f = pathlib.PurePosixPath(pathlib.Path(n.get_support_output_folder()).as_posix())
+        if f != want_folder:
+            ctx.fail({"kind": "support-folder"}, "get_support_output_folder() is not the output directory",
+                     rep(namespace=kstr(nskey(n)), support_folder=f.as_posix(), outdir=base))
+    from nunavut.jinja import SupportGenerator
+    for p in SupportGenerator(root).generate_all(is_dryrun=True):
+        q = pathlib.PurePosixPath(p.as_posix())
+        try:
+            rel = q.relative_to(want_folder)
+            ok = len(rel.parts) > 0 and ".." not in rel.parts
+        except ValueError:
+            ok = False
+        if not ok:
+            ctx.fail({"kind": "support-file-outside-outdir"}, "a support file is announced outside the output directory",
+                     rep(path=q.as_posix(), outdir=base))
+        ctx.count("search_support_files_checked")
     # -- the generators consume exactly these paths (dry run)
     dry = [p.as_posix() for p in gen.generate_all(is_dryrun=True)]
     prov = root.get_all_types() if gen.generate_namespace_types else root.get_all_datatypes()
@@ -538,9 +575,9 @@ def write_corpus_universe(base, spec):
     return roots
 
 
-def out_spellings(rng, sandbox_work):
+def out_spellings(rng, sandbox_work, rel=None):
     """(spelled, clean form the formula uses, absolute location) - relative, absolute, trailing slash, ./, doubled slash."""
-    rel = rng.choice(["out", "gen/out", "o.d/x", "out_1"])
+    rel = rel or rng.choice(["out", "gen/out", "o.d/x", "out_1"])
     ab = os.path.join(sandbox_work, rel)
     return [
         (rel, rel, ab),
@@ -634,7 +671,8 @@ def one_tree(ctx, pending, case, types, deps, root_dir, out_spelled, lctx):
     from nunavut.lang import Language
     line = request(language.enable_stropping, language.extension,
                    language.get_config_value(Language.WKCV_NAMESPACE_FILE_STEM, "_"), out_spelled,
-                   second_pass_order(types), table, [tkey(t) for t in types], [tkey(t) for t in deps])
+                   second_pass_order(types), table, [tkey(t) for t in types], [tkey(t) for t in deps],
+                   *support_inputs(language))
     pending.append((line, res, case, [tkey(t) for t in every]))
     return res, built
 
@@ -710,6 +748,41 @@ def run_exhaustive(ctx, pending):
     shutil.rmtree(ubase, ignore_errors=True)
 
 
+def run_support_only(ctx, pending):
+    """Real runs with an EMPTY tree (`--generate-support only`, a root namespace directory without types, and the
+    explicit empty type list) for every language and every spelling of the output directory: the support files must be
+    created inside the output directory and be what the dry run announces; the tree goes through the tie as well."""
+    rng = ctx.rng
+    ubase = ctx.scratch / "support_only"
+    src = ubase / "dsdl" / "emptyroot"
+    src.mkdir(parents=True)
+    sandbox = ubase / "sandbox"
+    for lang in LANGS:
+        lctx = make_lctx(lang)
+        language = lctx.get_target_language()
+        for rel in (["out", "gen/out"] if ctx.quick else ["out", "gen/out", "o.d/x"]):
+            work = sandbox / "work"
+            work.mkdir(parents=True, exist_ok=True)
+            for out_spelled, out_clean, out_abs in out_spellings(rng, str(work), rel):
+                case = {"universe": "support-only", "root": "emptyroot", "lang": lang, "ext": None, "stem": None, "enable_stropping": None,
+                        "outdir": out_spelled, "types": [], "refs": []}
+                old = os.getcwd()
+                os.chdir(work)
+                try:
+                    res, built = one_tree(ctx, pending, case, [], [], str(src), out_spelled, lctx)
+                    count_case(ctx, case, [], res, language, lang, None, None, None, out_spelled)
+                    ctx.count("stream=support-only")
+                    if built is not None:
+                        search(ctx, case, [], [], str(src), out_clean, lctx, built, {})
+                finally:
+                    os.chdir(old)
+                real_run(ctx, case, str(sandbox), str(work), out_spelled, out_abs, [], str(src), lctx)
+                ctx.count("real_runs_with_empty_tree")
+                shutil.rmtree(work, ignore_errors=True)
+                work.mkdir(parents=True)
+    shutil.rmtree(ubase, ignore_errors=True)
+
+
 def run(ctx: common.Ctx):
     drivers = ctx.prove(["C11"], exes=["nstree"])
     drv = drivers.get("nstree")
@@ -758,6 +831,8 @@ def run(ctx: common.Ctx):
             lap("corpus")
             run_exhaustive(ctx, pending)
             lap("exhaustive")
+            run_support_only(ctx, pending)
+            lap("support_only")
         ubase = ctx.scratch / f"u{ui}"
         src = ubase / "dsdl"
         sandbox = ubase / "sandbox"
@@ -824,7 +899,7 @@ def run(ctx: common.Ctx):
             # a real run for some of the cases
             if real_budget > 0 and ext not in EXT_INVALID and rng.random() < (0.5 if ctx.quick else 0.3):
                 for r, types in zip(roots, read):
-                    if not types or real_budget <= 0:
+                    if real_budget <= 0:
                         continue
                     real_budget -= 1
                     case = {"universe": uname, "root": r["name"], "lang": lang, "ext": ext, "stem": stem, "enable_stropping": enable,
@@ -852,6 +927,9 @@ def run(ctx: common.Ctx):
                 m = parse_answer(ans, every)
             except Exception as ex:  # malformed answer = disagreement, never a crash
                 m = {"error": f"unparsable: {ans[:200]} ({ex})"}
+            if isinstance(m.get("support_files"), list) and m["support_files"] and all(isinstance(x, str) for x in m["support_files"]) \
+                    and res.get("support_files") == "Ebad-suffix":
+                m["support_files"] = "Ebad-suffix"
             if m != res:
                 d = first_diff(m, res) or {}
                 ctx.disagree("nstree", dict(case, request=line, where=d.get("field"), at=d.get("at")),
@@ -876,8 +954,9 @@ def replay(ctx, path):
     uname = rp.get("universe", "")
     probe = common.Ctx("C11", r.get("tier", "quick"), r.get("seed", 0))
     try:
-        if uname.startswith("corpus:") or uname == "exhaustive":
-            spec = EXH_SPEC if uname == "exhaustive" else json.loads((common.VERIF / "corpus" / "C11" / uname[7:]).read_text())
+        if uname.startswith("corpus:") or uname in ("exhaustive", "support-only"):
+            spec = EXH_SPEC if uname == "exhaustive" else {"roots": [{"name": "emptyroot", "files": {}, "dirs": ["."]}]} if uname == "support-only" \
+                else json.loads((common.VERIF / "corpus" / "C11" / uname[7:]).read_text())
             roots = write_corpus_universe(probe.scratch / "dsdl", spec)
             dirs = [x["dir"] for x in roots]
             for x in roots:
